@@ -20,6 +20,7 @@ SCALARS = ["Int", "String", "Float", "Boolean", "ID"]
 class SchemaGen:
     def __init__(self, seed):
         self.r = random.Random(seed)
+        self.r2 = random.Random(seed * 7919 + 13)
         self.enums = {f"E{i}": [f"V{i}A", f"V{i}B", "from" if i == 0 else f"V{i}C"] for i in range(2)}
         self.inputs = {}
 
@@ -86,7 +87,10 @@ class SchemaGen:
         for e, vals in self.enums.items():
             sdl += f"enum {e} {{ {' '.join(vals)} }}\n"
         for name, fields in self.inputs.items():
-            body = " ".join((f'"documented" ' if self.r.random() < 0.2 else "") + f"{fn}: {ts}" + (f" = {d}" if d is not None else "") for fn, (ts, d) in fields.items())
+            # (optional fields may be marked @deprecated - legal on input fields, kept by graphql-core: they stay fields of the input;
+            #  decided by a second random stream so that the other choices of a seed are what they were)
+            body = " ".join((f'"documented" ' if self.r.random() < 0.2 else "") + f"{fn}: {ts}" + (f" = {d}" if d is not None else "")
+                            + (' @deprecated(reason: "old")' if not (ts.endswith("!") and d is None) and self.r2.random() < 0.2 else "") for fn, (ts, d) in fields.items())
             sdl += f"input {name} {{ {body} }}\n"
         args = []
         for i in range(self.r.randint(2, 4)):
